@@ -70,13 +70,13 @@ func (sw *slidingWindow) cleaner() {
 				} else {
 					break
 				}
-				if len(sw.samples) > newstartidx {
-					newsamples := make([]sample, len(sw.samples)-newstartidx)
-					copy(sw.samples[newstartidx:], newsamples)
-					sw.samples = newsamples
-				} else {
-					sw.samples = make([]sample, 0)
-				}
+			}
+			if len(sw.samples) > newstartidx {
+				newsamples := make([]sample, len(sw.samples)-newstartidx)
+				copy(newsamples, sw.samples[newstartidx:])
+				sw.samples = newsamples
+			} else {
+				sw.samples = make([]sample, 0)
 			}
 			sw.mutex.Unlock()
 
